@@ -401,8 +401,42 @@ def property_named_members(ctx):
                 ctx.event("property_named_members_checked")
 
 
+def dumps_across_endian_switches(ctx):
+    """Dumping writes the integer through the underlying type in the byte order the cstruct object has *now*: the same
+    member (and unknown value) dumped before and after every switch, as a scalar, in a structure, in an array."""
+    for base, size in (("uint16", 2), ("uint32", 4), ("int24", 3), ("uint64", 8), ("int128", 16)):
+        for kw in ("enum", "flag"):
+            text = f"{kw} K : {base} {{ ONE = 1, BIG = 0x0102, TOP = 0x4000 }};\nstruct S {{ K k; uint16 plain; K arr[2]; }};"
+            for compiled in (True, False):
+                ctx.evaluation(("dumps-across-switches", base, kw, compiled))
+                ctx.cell("dumps-across-endian-switches")
+                det = {"text": text, "compiled": compiled, "workload": "dumps-across-endian-switches"}
+                try:
+                    cs = lib.load(text, "<", False, compiled)
+                    bad = []
+                    for step, endian in enumerate(("<", ">", "<", "!", "<")):
+                        cs.endian = endian
+                        bo = "little" if endian == "<" else "big"
+                        for v in (cs.K.ONE, cs.K.BIG, cs.K(0x0304), cs.K.TOP):
+                            want = int(v.value).to_bytes(size, bo)
+                            o = cs.S(k=v, plain=0x0506, arr=[v, cs.K.ONE])
+                            wo = want + (0x0506).to_bytes(2, bo) + want + (1).to_bytes(size, bo)
+                            if v.dumps() != want or cs.K.dumps(v) != want or o.dumps() != wo or cs.K.reads(v.dumps()) != v \
+                                    or cs.S(o.dumps()) != o:
+                                bad.append((step, endian, repr(v), v.dumps().hex(), o.dumps().hex()))
+                except Exception as e:  # noqa: BLE001
+                    ctx.violation("value", f"dump-after-endian-switch-raises:{type(e).__name__}", dict(det, error=lib.exc_sig(e)))
+                    continue
+                if bad:
+                    ctx.violation("value", "dump-does-not-follow-the-current-byte-order", dict(det, failing=repr(bad[:4])))
+                else:
+                    ctx.event("dumps_across_switches_checked")
+
+
 def run(ctx):
     rng = ctx.rng("decls")
+    if ctx.shard == 4:
+        dumps_across_endian_switches(ctx)
     if ctx.shard == 2:
         enum_over_enum(ctx)
     if ctx.shard == 3:
@@ -431,6 +465,7 @@ def replay(ctx, detail):
         anonymous_constants(ctx, ctx.rng("anonymous-constants"), 30)
         enum_over_enum(ctx)
         property_named_members(ctx)
+        dumps_across_endian_switches(ctx)
         return
     cs = lib.load(detail["text"], detail["cfg"]["endian"], False, detail["cfg"]["compiled"])
     print({n: t for n, t in cs.typedefs.items() if isinstance(t, type) and issubclass(t, _enum.Enum)})
